@@ -7,3 +7,7 @@ import c10
 
 def main(tier, seed, replay=None):
     return c10.main_for("C13", tier, seed, replay)
+
+
+def setup():
+    return c10.setup()
